@@ -99,7 +99,7 @@ def run_property(prop, tier, seed, shared=None):
         'seed': seed,
         'level': 'other',
         'coverage': {
-            'explanation': meta.EXPLAIN.get(prop, ''),
+            'explanation': meta.explain(prop),
             'obligations': obligations,
             'discharged': discharged,
             'evaluations': obligations,
